@@ -22,6 +22,9 @@ const (
 	streamWriterBatchSize = 1024
 )
 
+// noSender takes the place of the sender of messages that have none.
+var noSender = &actor.PID{}
+
 type streamWriter struct {
 	writeToAddr string
 	rawconn     net.Conn
@@ -79,7 +82,13 @@ func (s *streamWriter) Invoke(msgs []actor.Envelope) {
 			continue
 		}
 		typeID, typeNames = lookupTypeName(typeLookup, s.serializer.TypeName(stream.msg), typeNames)
-		senderID, senders = lookupPIDs(senderLookup, stream.sender, senders)
+		// A message without a sender points to the empty PID, index 0 is
+		// the sender of another message as soon as the batch has one.
+		sender := stream.sender
+		if sender == nil {
+			sender = noSender
+		}
+		senderID, senders = lookupPIDs(senderLookup, sender, senders)
 		targetID, targets = lookupPIDs(targetLookup, stream.target, targets)
 
 		b, err := s.serializer.Serialize(stream.msg)
